@@ -3,6 +3,8 @@
 package route
 
 import (
+	"net/http"
+
 	"github.com/honeycombio/refinery/collect"
 	"github.com/honeycombio/refinery/config"
 	"github.com/honeycombio/refinery/logger"
@@ -14,7 +16,7 @@ import (
 
 // VerifRouterNew builds a Router the way LnS leaves it as far as processEvent is concerned (no
 // listeners started), for the C19 harness.  Unexported names touched:
-// Router.{routerType,iopLogger}, registerMetricNames, processEvent.
+// Router.{routerType,iopLogger}, registerMetricNames, processEvent, getDatasetFromRequest.
 func VerifRouterNew(cfg config.Config, lg logger.Logger, met metrics.Metrics,
 	upstream, peer transmit.Transmission, coll collect.Collector, sh sharder.Sharder,
 	rt types.RouterType) *Router {
@@ -37,3 +39,7 @@ func VerifRouterNew(cfg config.Config, lg logger.Logger, met metrics.Metrics,
 func (r *Router) VerifRouterProcessEvent(ev *types.Event) error {
 	return r.processEvent(ev, "verif")
 }
+
+// VerifRouterDataset is getDatasetFromRequest: the dataset name the event and batch handlers
+// read from the request's mux variables.
+func VerifRouterDataset(req *http.Request) (string, error) { return getDatasetFromRequest(req) }
